@@ -5,9 +5,11 @@ package queue
 // recorded by a pass-through proxy target: that is "what the queue accepted"; the monitor compares
 // every delivery attempt (first, retries, after restarts) with it.
 //
-//   C10 smtp <hist> <u|t|8|-...> A=<0|1> F=<hex addr> R=<hex addr>,.. H=<hex header blob> B=<kind>:<len>:<seed> [D=<0|1|2>]
+//   C10 smtp <hist> <u|t|8|-...> A=<0|1> F=<hex addr> R=<hex addr>,.. H=<hex header blob> B=<kind>:<len>:<seed> [D=<0|1|2>] [P=<h>,<b>,<m>]
 //
 // D: the queue's bounce pipeline (absent / takes the failure reports / refuses them); default 0.
+// P: leftover files ID.header / ID.body / ID.meta.new (ID = the id the endpoint gives the message) put
+// into the spool right before the queue stores the message (see c10Pre); default none.
 //
 // The same execution is also handed to the Lean model as a synthesized `C10 run` op line built from
 // the proxy's record.
@@ -55,6 +57,9 @@ type c10E2E struct {
 	// the header value and the metadata object the pipeline handed over (it still holds both)
 	srcHdr  textproto.Header
 	srcMeta *module.MsgMetadata
+	// files of the message's own names (the id the endpoint has given it) put into the spool right
+	// before the queue stores it
+	pre c10Pre
 }
 
 type c10Proxy struct {
@@ -144,7 +149,14 @@ func (d *c10ProxyDelivery) Body(ctx context.Context, header textproto.Header, bo
 	d.e.w.tgt.mu.Lock()
 	d.e.w.tgt.accBody = acc.body
 	d.e.w.tgt.mu.Unlock()
-	return d.d.Body(ctx, header, body)
+	if d.e.pre.any() {
+		d.e.w.plantPre(m.ID, d.e.pre, len(acc.hdr), len(acc.body))
+	}
+	if err := d.d.Body(ctx, header, body); err != nil {
+		return err
+	}
+	d.e.w.captureStored(m.ID, acc.hdr, acc.body)
+	return nil
 }
 
 func (d *c10ProxyDelivery) Abort(ctx context.Context) error  { return d.d.Abort(ctx) }
@@ -306,7 +318,7 @@ func c10DotStuff(msg []byte) []byte {
 
 func c10Smtp(out *vh.Out, ep *c10Endpoint, op string) {
 	t := strings.Fields(op)
-	if (len(t) != 9 && len(t) != 10) || t[1] != "smtp" {
+	if len(t) < 9 || len(t) > 11 || t[1] != "smtp" {
 		out.Note("unparsable smtp op")
 		return
 	}
@@ -334,10 +346,23 @@ func c10Smtp(out *vh.Out, ep *c10Endpoint, op string) {
 	user, pass, secrets := c10Secrets(tag)
 	w := c10NewWorld(steps, secrets)
 	defer w.cleanup()
-	if len(t) == 10 && strings.HasPrefix(t[9], "D=") {
-		w.dsnMode, _ = strconv.Atoi(t[9][2:])
+	pre, _ := c10ParsePre("-")
+	for _, x := range t[9:] {
+		switch {
+		case strings.HasPrefix(x, "D="):
+			w.dsnMode, _ = strconv.Atoi(x[2:])
+		case strings.HasPrefix(x, "P="):
+			var perr error
+			if pre, perr = c10ParsePre(x[2:]); perr != nil {
+				out.Note("unparsable smtp op: " + perr.Error())
+				return
+			}
+		default:
+			out.Note("unparsable smtp op")
+			return
+		}
 	}
-	e := &c10E2E{w: w, acc: &c10Accepted{envUTF8: true}}
+	e := &c10E2E{w: w, acc: &c10Accepted{envUTF8: true}, pre: pre}
 	e.stopBeforeCommit = len(steps) > 0 && steps[0].restart && steps[0].commit
 	ep.auth.mu.Lock()
 	ep.auth.user, ep.auth.pass = user, pass
@@ -545,9 +570,9 @@ func c10Smtp(out *vh.Out, ep *c10Endpoint, op string) {
 	if len(xs) > 0 {
 		xtab = strings.Join(xs, ".")
 	}
-	runOp := fmt.Sprintf("C10 run %s %s %s:9:%d:0:%d S=%s J=%s from=%d to=%s orc=%s f=%s%s%s00 auth=%d late=1 dsn=%d X=%s peer=-", strings.Join(hist, "."), hdr,
+	runOp := fmt.Sprintf("C10 run %s %s %s:9:%d:0:%d S=%s J=%s from=%d to=%s orc=%s f=%s%s%s00 auth=%d late=1 dsn=%d X=%s peer=- pre=%s", strings.Join(hist, "."), hdr,
 		e.bufKind, len(acc.body), c10Digest(acc.body), strings.Join(ss, ","), jtab, fromI, strings.Join(toI, "."), orc,
-		c10Bit(acc.utf8), c10Bit(acc.rtls), c10Bit(acc.tro), authN, w.dsnMode, xtab)
+		c10Bit(acc.utf8), c10Bit(acc.rtls), c10Bit(acc.tro), authN, w.dsnMode, xtab, pre)
 	obs, fin := w.observation(strs, acc.id)
 	out.Corr(runOp, obs)
 
@@ -683,6 +708,30 @@ func c10GenSmtp(r *vh.Rng, big bool, edge int) string {
 	return op + fmt.Sprintf(" D=%d", []int{1, 1, 1, 1, 1, 1, 1, 2, 0, 0}[r.Intn(10)])
 }
 
+// c10DecorateSmtp: hdrPct % of the cases get one of the header fields that speak about the envelope on
+// top of the client's header, prePct % leftover files of the message's own names.
+func c10DecorateSmtp(r *vh.Rng, op string, hdrPct, prePct int) string {
+	t := strings.Fields(op)
+	if len(t) < 9 || !strings.HasPrefix(t[7], "H=") {
+		return op
+	}
+	if r.Chance(hdrPct) {
+		var blob []byte
+		if t[7] != "H=-" {
+			blob = vh.UnhexBytes(strings.TrimPrefix(t[7], "H="))
+		}
+		var add []byte
+		for _, f := range c10GenEnvelopeFields(r) {
+			add = append(add, f...)
+		}
+		t[7] = "H=" + vh.HexBytes(append(add, blob...))
+	}
+	if r.Chance(prePct) {
+		t = append(t, "P="+c10GenPreSpec(r).String())
+	}
+	return strings.Join(t, " ")
+}
+
 func TestVerifC10Smtp(t *testing.T) {
 	out := vh.Open("c10_smtp")
 	defer out.Close()
@@ -729,10 +778,14 @@ func TestVerifC10Smtp(t *testing.T) {
 		nbig = 10
 	}
 	rd := vh.NewRng(vh.Seed() + 3014)
+	rp := vh.NewRng(vh.Seed() + 3015)
 	for i := 0; i < n; i++ {
 		op := c10GenSmtp(r, i < nbig, -1)
 		if i >= nbig {
 			op = c10DecorateOp(rd, op, 10, 25)
+			// header fields that speak about the envelope (TLS-Required in every spelling, Return-Path, ...)
+			// whatever the options of the transaction; leftover files of the message's own names
+			op = c10DecorateSmtp(rp, op, 35, 20)
 		}
 		c10Smtp(out, ep, op)
 	}
@@ -765,6 +818,18 @@ func TestVerifC10Smtp(t *testing.T) {
 	// after a restart); restarts that find a leftover ID.meta.new beside the intact ID.meta
 	two := " F=" + vh.HexBytes([]byte("a@example.org")) + " R=" + vh.HexBytes([]byte("b@example.org")) + "," + vh.HexBytes([]byte("c@example.org")) +
 		" H=" + vh.HexBytes([]byte("From: a@example.org\r\nSubject: x\r\n\r\n")) + " B=0:100:5 D=1"
+	// a TLS-Required field in the client's header, in several spellings, with and without REQUIRETLS, read
+	// back from the spool in a retry / after a restart; leftover ID.header / ID.body / ID.meta.new of the
+	// very id the endpoint gives the message (longer, of the same length, shorter than what is stored)
+	env := " A=0 F=" + vh.HexBytes([]byte("a@example.org")) + " R=" + vh.HexBytes([]byte("b@example.org")) + "," + vh.HexBytes([]byte("c@example.org"))
+	for i, h := range []string{"TLS-Required: No\r\n", "tls-required:\r\n NO\r\n", "TLS-Required: Yes\r\nTLS-Required: No\r\n", "TLS-Required: No (really)\r\n"} {
+		blob := " H=" + vh.HexBytes([]byte("From: a@example.org\r\n"+h+"Subject: x\r\n\r\n")) + " B=0:100:6 D=1"
+		c10Smtp(out, ep, "C10 smtp aPtt.aPto.r.aPoo "+[]string{"t8", "8"}[i%2]+env+blob)
+		c10Smtp(out, ep, "C10 smtp R.aAtt.aPoo "+[]string{"8", "ut"}[i%2]+env+blob)
+	}
+	for i, p := range []string{"+17,+9,x", "x,+1,x", "+0,+0,3000", "-3,-3,100000", "x,x,100000", "+4096,+70000,0"} {
+		c10Smtp(out, ep, "C10 smtp "+[]string{"aPoo", "aPtt.aPoo", "aAtt.r.aPoo", "R.aPto.aPoo", "aPtt.r"}[i%5]+" 8"+env+" H="+vh.HexBytes([]byte("Subject: x\r\n\r\n"))+" B=0:300:7 D=1 P="+p)
+	}
 	for _, h := range []string{"aPtt!s.r.aPoo", "aPtt!r.aPoo", "aAto!b.r.aPoo", "aPto!c.r.aPoo", "aPtt.aPto!b.aPoo", "aAtt.r.aPto!c.r.aPoo", "R.aPtt!b.r.aPoo",
 		"aPto.rn0.aPoo", "aPto.rn1.aPoo", "aPtt.aPto.rn3.r.aPoo", "aPto.rn4.aPoo", "aPto.rn5.aPoo", "aAtt.rn6.aPto.rn7.aPoo", "Rn2.aPto.rn8.aPoo", "aPto.rn9.aPoo.r"} {
 		c10Smtp(out, ep, "C10 smtp "+h+" u8 A=1"+two)
